@@ -1,8 +1,211 @@
-(* C08 — unknown fields survive decode/encode; schema evolution is lossless.  (work in progress) *)
-From BP Require Import Base.Prelude Model.Types Model.Varint Model.Object Model.Encode Model.Decode Model.C08Step.
-From BP Require Import Proofs.C08StepP.
+(* C08 — unknown fields survive decode/encode; schema evolution is lossless.
 
+   Models: [parse] / [load] (Model/Decode.v) mirror Message.parse / load, [enc_obj] (Model/Encode.v)
+   mirrors bytes(m).  Model/C08Step.v names the pieces of load ([step]: the loop body for one record,
+   proved to be the body of [load] by conversion) and defines
+     records bs ps        bs is the concatenation of the complete records ps (tag, payload; the four
+                          wire types and groups), praw p = the bytes record p occupies
+     is_unknown cd p      class cd keeps record p verbatim: number not declared, or declared with a type
+                          that cannot arrive with p's wire type (this includes groups)
+     unknown_raw / known_raw   concatenation of the raw bytes of the unknown / the other records, in order
+     drop_fields masks sc the older schema: any subset of the fields of any class deleted
+   None of the statements below bounds the schema, the byte string or the subset of deleted fields. *)
+From BP Require Import Base.Prelude Model.Types Model.Varint Model.Object Model.Eq Model.Encode Model.Decode.
+From BP Require Import Model.WellFormed Model.C08Step.
+From BP Require Import Proofs.C08FrameP Proofs.C08StepP Proofs.C08UnknownP Proofs.C08CommuteP Proofs.C08EvolutionP.
+
+(* Message.parse is a left-to-right fold of the loop body over the records of the input, and succeeds
+   exactly when the input is a sequence of complete records each of which the loop body accepts *)
+Theorem C08_parse_is_fold : forall sc c bs m,
+  parse sc c bs = Ok m <->
+  exists ps, records bs ps /\ fold_steps (length bs) sc (get_class sc c) (touch (new sc c)) ps = Ok m.
+Proof. exact parse_fold. Qed.
+Print Assumptions C08_parse_is_fold.
+
+(* the records partition the input byte for byte, and the grammar is deterministic *)
+Theorem C08_records_partition : forall bs ps, records bs ps -> bs = raw_of ps.
+Proof. exact records_raw. Qed.
+Print Assumptions C08_records_partition.
+
+Theorem C08_records_deterministic : forall bs ps, records bs ps -> forall ps', records bs ps' -> ps = ps'.
+Proof. exact records_det. Qed.
+Print Assumptions C08_records_deterministic.
+
+(* after parsing, _unknown_fields is exactly the concatenation, in arrival order, of the raw bytes of the
+   records the class does not know — any wire type, any position *)
+Theorem C08_raw_preserved : forall sc c bs m,
+  parse sc c bs = Ok m ->
+  exists ps, records bs ps /\ bs = raw_of ps /\ ounk m = unknown_raw (get_class sc c) ps.
+Proof. exact raw_preserved. Qed.
+Print Assumptions C08_raw_preserved.
+
+(* m.parse(bs) on an existing message: earlier unknown bytes stay, the new ones are appended *)
+Theorem C08_raw_preserved_into : forall sc o bs m,
+  parse_into sc o bs = Ok m ->
+  exists ps, records bs ps /\ ounk m = ounk o ++ unknown_raw (get_class sc (ocls o)) ps.
+Proof. exact raw_preserved_into. Qed.
+Print Assumptions C08_raw_preserved_into.
+
+(* unknown records never change a known field, _group_current, _serialized_on_wire: parsing bs and
+   parsing bs with all unknown records deleted give the same object up to _unknown_fields ... *)
+Theorem C08_known_undisturbed : forall sc c bs m,
+  parse sc c bs = Ok m ->
+  exists ps, records bs ps /\
+             parse sc c (known_raw (get_class sc c) ps) = Ok (clear_unk m) /\
+             m = set_unk (clear_unk m) (unknown_raw (get_class sc c) ps).
+Proof. exact known_undisturbed. Qed.
+Print Assumptions C08_known_undisturbed.
+
+(* ... and conversely: inserting complete records the class does not know, anywhere, can neither make
+   parsing fail nor change anything but _unknown_fields *)
+Theorem C08_known_undisturbed_conv : forall sc c bs ps m',
+  records bs ps ->
+  parse sc c (known_raw (get_class sc c) ps) = Ok m' ->
+  parse sc c bs = Ok (set_unk m' (unknown_raw (get_class sc c) ps)).
+Proof. exact known_undisturbed_conv. Qed.
+Print Assumptions C08_known_undisturbed_conv.
+
+(* bytes(m) = bytes(m without its unknown bytes) ++ the unknown bytes, verbatim *)
 Theorem C08_reemit : forall sc m bs,
   enc_obj sc m = Ok bs <-> exists body, enc_obj sc (clear_unk m) = Ok body /\ bs = body ++ ounk m.
 Proof. exact reemit. Qed.
 Print Assumptions C08_reemit.
+
+(* an unknown record and a known record can be applied in either order *)
+Theorem C08_unknown_commutes : forall fuel' sc cd u k,
+  is_unknown cd u = true -> is_unknown cd k = false ->
+  forall o o1 o2, step fuel' sc cd o u = Ok o1 -> step fuel' sc cd o1 k = Ok o2 ->
+                  exists o1', step fuel' sc cd o k = Ok o1' /\ step fuel' sc cd o1' u = Ok o2.
+Proof. exact swap_unknown_known. Qed.
+Print Assumptions C08_unknown_commutes.
+
+(* records of two different fields that are not members of one oneof group can be applied in either order:
+   records interact only within one field number or one oneof group *)
+Theorem C08_records_commute : forall fuel' sc cd u k j fj i fi,
+  field_by_number cd (pnum u) = Some (j, fj) -> wire_type_fits fj (pwt u) = true ->
+  field_by_number cd (pnum k) = Some (i, fi) -> wire_type_fits fi (pwt k) = true ->
+  i <> j -> (fgroup fi = None \/ fgroup fi <> fgroup fj) ->
+  forall o o1 o2, cd = get_class sc (ocls o) ->
+    step fuel' sc cd o u = Ok o1 -> step fuel' sc cd o1 k = Ok o2 ->
+    exists o1', step fuel' sc cd o k = Ok o1' /\ step fuel' sc cd o1' u = Ok o2.
+Proof. exact swap_known_known. Qed.
+Print Assumptions C08_records_commute.
+
+(* Evolution at the level of bytes.  sn: the newer schema (field numbers of class c unique), so: ANY subset of
+   fields of ANY class deleted, bs: ANY byte string made of complete records in which no oneof group has both a
+   deleted and a kept member present.  If the older reader/writer turns bs into b2, then b2 is the re-encoded
+   known part k2 followed verbatim by the records the older class does not know; and if the newer reader sees in
+   k2 what it sees in the original known records (the business of the round-trip property C01: for deletions in
+   class c only, k2 IS those records), then the newer reader computes from b2 EXACTLY the object it computes
+   from bs: raw attributes, presence, oneof selection and unknown bytes. *)
+Theorem C08_evolution_bytes : forall sn masks c,
+  nodup_z (map fnum (cfields (get_class sn c))) = true ->
+  forall bs ps mo b2 k2 mn,
+  records bs ps ->
+  split_free (get_class sn c) (get_class (drop_fields masks sn) c) ps = true ->
+  parse (drop_fields masks sn) c bs = Ok mo ->
+  enc_obj (drop_fields masks sn) mo = Ok b2 ->
+  enc_obj (drop_fields masks sn) (clear_unk mo) = Ok k2 ->
+  parse sn c k2 = parse sn c (known_raw (get_class (drop_fields masks sn) c) ps) ->
+  parse sn c bs = Ok mn ->
+  b2 = k2 ++ unknown_raw (get_class (drop_fields masks sn) c) ps /\ parse sn c b2 = Ok mn.
+Proof. exact evolution_bytes. Qed.
+Print Assumptions C08_evolution_bytes.
+
+(* The headline, for a message m of the newer schema.  PARTIAL: the two facts that belong to the round-trip
+   property C01 are premises (marked C01), not conclusions:
+     C01-new  the newer schema round-trips m:            parse sn c (enc sn m) = Ok m1, m1 == m
+     C01-old  the older writer reproduces the bytes of the fields it knows (canonical re-encoding; holds when the
+              deleted fields are fields of class c itself — for deletions inside nested classes use
+              C08_evolution_bytes, whose premise is the weaker "the newer reader sees the same object")
+   and so are: that the older reader and writer do not raise on these bytes, and [split_free] (a canonical encoder
+   emits at most one member per oneof group; the encoder-legality lemma that would discharge it is not proved here).
+   All of them are evaluated by the check on every generated case (oracle + vm_compute). *)
+Theorem C08_evolution_partial : forall sn masks c m b1 m1 ps mo b2,
+  nodup_z (map fnum (cfields (get_class sn c))) = true ->
+  enc_obj sn m = Ok b1 ->
+  parse sn c b1 = Ok m1 -> obj_eq sn m1 m = true ->                                    (* C01-new *)
+  records b1 ps ->
+  split_free (get_class sn c) (get_class (drop_fields masks sn) c) ps = true ->
+  parse (drop_fields masks sn) c b1 = Ok mo ->
+  enc_obj (drop_fields masks sn) mo = Ok b2 ->
+  enc_obj (drop_fields masks sn) (clear_unk mo) = Ok (known_raw (get_class (drop_fields masks sn) c) ps) ->  (* C01-old *)
+  exists m2, parse sn c b2 = Ok m2 /\ m2 = m1 /\ obj_eq sn m2 m = true /\ enc_obj sn m2 = enc_obj sn m1.
+Proof.
+  intros sn masks c m b1 m1 ps mo b2 Hnd Henc Hp Heq Hrec Hsf Hpo Heo Hk.
+  destruct (evolution_bytes sn masks c Hnd b1 ps mo b2 _ m1 Hrec Hsf Hpo Heo Hk eq_refl Hp) as [_ H].
+  exists m1. repeat split; assumption.
+Qed.
+Print Assumptions C08_evolution_partial.
+
+(* ---- non-vacuity ----
+   newer class 11: a=1 int32, s=2 string, d=3 double, r=4 repeated sint64, u1=5 string (oneof 0), u2=6 int64 (oneof 0),
+   n=7 message(11);  older: d, r, u1 deleted.  The input interleaves an unknown varint (field 99, padded tag), an
+   unknown group (field 20) and a fixed32 on the string field's number among the fields. *)
+Definition ex_new : schema :=
+  mkS (builtin_classes ++
+       [mkC [mkF [x61] 1 TInt32 None None None false (HPlain PyInt) 0;
+             mkF [x73] 2 TString None None None false (HPlain PyStr) 0;
+             mkF [x64] 3 TDouble None None None false (HPlain PyFloat) 0;
+             mkF [x72] 4 TSInt64 None None None false (HList PyInt) 0;
+             mkF [x75; x31] 5 TString None (Some 0%nat) None false (HPlain PyStr) 0;
+             mkF [x75; x32] 6 TInt64 None (Some 0%nat) None false (HPlain PyInt) 0;
+             mkF [x6e] 7 TMessage None None None false (HPlain (PyMsg 11)) 0] 1]) [].
+Definition ex_masks : list (list bool) :=
+  [[]; []; []; []; []; []; []; []; []; []; []; [true; true; false; false; false; true; true]].
+Definition ex_old : schema := drop_fields ex_masks ex_new.
+Definition ex_m : obj :=
+  Obj 11 [PInt 150; PStr [x68; x69]; PFloat 4609434218613702656; PList [PInt (-1); PInt 300];
+          PPlaceholder; PInt 7; PMsg (Obj 11 [PInt 1; PPlaceholder; PPlaceholder; PPlaceholder; PPlaceholder; PPlaceholder; PPlaceholder] true [] [None])]
+      true [] [Some 5%nat].
+Definition ex_get {A} (d : A) (r : result A) : A := match r with Ok a => a | Err _ => d end.
+Definition ex_b1 : list byte := Eval vm_compute in ex_get [] (enc_obj ex_new ex_m).
+(* b1 with unknown records interleaved: padded-tag varint (99), group (20), fixed32 on number 2 *)
+Definition ex_bs : list byte :=
+  [x98; x86; x00; x05] ++ firstn 3 ex_b1 ++ [xa3; x01; x08; x05; xa4; x01] ++ skipn 3 ex_b1 ++ [x15; x01; x02; x03; x04].
+Definition ex_ps (bs : list byte) : list parsed := match frames (S (length bs)) bs with Some ps => ps | None => [] end.
+
+Example C08_unknown_nonvacuous :
+  exists m, parse ex_old 11 ex_bs = Ok m /\
+    ounk m = [x98; x86; x00; x05] ++ [xa3; x01; x08; x05; xa4; x01] ++ unknown_raw (get_class ex_old 11) (ex_ps ex_b1) ++ [x15; x01; x02; x03; x04] /\
+    parse ex_old 11 (known_raw (get_class ex_old 11) (ex_ps ex_bs)) = Ok (clear_unk m) /\
+    records ex_bs (ex_ps ex_bs) /\ length (ex_ps ex_bs) = 9%nat /\
+    length (filter (is_unknown (get_class ex_old 11)) (ex_ps ex_bs)) = 5%nat.
+Proof.
+  eexists. split; [vm_compute; reflexivity|]. split; [vm_compute; reflexivity|]. split; [vm_compute; reflexivity|].
+  split; [apply frames_sound with (n := S (length ex_bs)); vm_compute; reflexivity|]. split; vm_compute; reflexivity.
+Qed.
+
+Example C08_evolution_nonvacuous :
+  let cdo := get_class ex_old 11 in
+  let ps := ex_ps ex_b1 in
+  nodup_z (map fnum (cfields (get_class ex_new 11))) = true /\
+  enc_obj ex_new ex_m = Ok ex_b1 /\
+  (exists m1, parse ex_new 11 ex_b1 = Ok m1 /\ obj_eq ex_new m1 ex_m = true) /\
+  records ex_b1 ps /\ split_free (get_class ex_new 11) cdo ps = true /\
+  (exists mo b2, parse ex_old 11 ex_b1 = Ok mo /\ ounk mo <> [] /\ enc_obj ex_old mo = Ok b2 /\ b2 <> ex_b1 /\
+                 enc_obj ex_old (clear_unk mo) = Ok (known_raw cdo ps) /\
+                 parse ex_new 11 b2 = parse ex_new 11 ex_b1).
+Proof.
+  cbv zeta. split; [vm_compute; reflexivity|]. split; [vm_compute; reflexivity|].
+  split; [eexists; split; vm_compute; reflexivity|].
+  split; [apply frames_sound with (n := S (length ex_b1)); vm_compute; reflexivity|].
+  split; [vm_compute; reflexivity|].
+  eexists. eexists. split; [vm_compute; reflexivity|]. split; [vm_compute; discriminate|].
+  split; [vm_compute; reflexivity|]. split; [vm_compute; discriminate|]. split; vm_compute; reflexivity.
+Qed.
+
+(* the oneof side condition is needed: with the deleted member u1 AFTER... no — BEFORE the kept member u2 in the input,
+   the older writer moves u1 behind u2 and the newer reader then selects u1 instead of u2 *)
+Definition ex_conflict : list byte := [x2a; x01; x78; x30; x07].     (* u1 = "x", then u2 = 7 *)
+Example C08_split_oneof_refuted :
+  split_free (get_class ex_new 11) (get_class ex_old 11) (ex_ps ex_conflict) = false /\
+  exists mo b2 m_direct m_evolved,
+    parse ex_old 11 ex_conflict = Ok mo /\ enc_obj ex_old mo = Ok b2 /\
+    parse ex_new 11 ex_conflict = Ok m_direct /\ parse ex_new 11 b2 = Ok m_evolved /\
+    which_one_of m_direct 0 = Some 5%nat /\ which_one_of m_evolved 0 = Some 4%nat.
+Proof.
+  split; [vm_compute; reflexivity|]. do 4 eexists.
+  split; [vm_compute; reflexivity|]. split; [vm_compute; reflexivity|]. split; [vm_compute; reflexivity|].
+  split; [vm_compute; reflexivity|]. split; vm_compute; reflexivity.
+Qed.
